@@ -1,5 +1,13 @@
 # Per-property configuration of the orchestrator (bin/check).
 PROPS = {
+    "C21": {
+        "pkg": "c21", "level": "exploration",
+        "rule": "Seeded parameter sets for FUSEParamsToEnvVars / PGParamsToEnvVars (0..4 bundles / 0..3 databases, optional fields present or empty, sleep flag) with values from four classes: ordinary [a-z0-9/_-], printable ASCII, unicode, and alphabet-exhausting values that contain every character from '0' up to a PRNG bound so the chosen separators climb through the letters used as parameter names. Each encoded variable is decoded by a reference decoder written from the documented format and compared with the parameters given. A case is non-trivial when encoding succeeded and was decoded; distinct by its full parameter set.",
+        "technique": "runtime monitoring: round-trip oracle with an independent reference decoder over seeded, boundary-biased parameter sets",
+        "level_text": "Thousands of generated parameter sets, including the hostile ones that push the separator search into the parameter-name alphabet, are encoded by the real code and decoded by an independent decoder following the documented format; exploration is the right level for a pure function over an unbounded input space.",
+        "level_note": "Trusted: the reference decoder (first rune item separator, second key/value separator, items without key/value separator are flags, empty items ignored as the zsh decoder does). Not judged: parameters the encoder has no short name for (pg destination bundle-id file, contributor), separators outside ASCII against the shell decoder.",
+        "assumptions": ["reference decoder follows the documented format", "bundle/database names are unique within a set"],
+    },
     "C22": {
         "pkg": "c22", "level": "exploration",
         "rule": "Exhaustive blocks: every sequence of up to 4 writes with offsets 0..6 and lengths 1..4 (thorough: also up to 5 writes over offsets 0..5, lengths 1..3; a zero-length family with lengths 0..2), each prefix checked offset by offset against a bitmap; plus PRNG sequences of 2..8 writes over offsets 0..60, lengths 0..20. distinct_nontrivial counts distinct sequences of >= 2 writes (enumerated sequences are distinct by construction; random ones are de-duplicated by their write list).",
